@@ -199,8 +199,14 @@ class Script:
         with open(lib, "w") as f:
             f.write(src2)
         seen = {}
+        # a copy of the docs cache taken before `extdep` was ever documented: the reference for "features on" must not be
+        # able to see documentation produced with the other feature set
+        pristine = os.path.join(d, "home_ws")
+        shutil.rmtree(pristine, ignore_errors=True)
+        shutil.copytree(os.path.join(d, "home"), pristine)
         try:
-            for step, feats in (("features_off_1", []), ("features_on_1", ["extra"]), ("features_off_2", []), ("features_on_2", ["extra"])):
+            for step, feats in (("features_off_1", []), ("features_on_1", ["extra"]), ("features_on_reference_pristine_cache", ["extra"]),
+                                ("features_off_2", []), ("features_on_2", ["extra"])):
                 toml = e2e_env.APP_TOML + 'extdep = { path = "../extdep", features = [%s] }\n' % ", ".join('"%s"' % x for x in feats)
                 with open(os.path.join(d, "app", "Cargo.toml"), "w") as f:
                     f.write(toml)
@@ -209,7 +215,7 @@ class Script:
                     self.steps.append({"step": step, "generator_bug": err[-400:]})
                     return
                 self.reset_outputs()
-                r = self.pavexc(step, timeout=1800)
+                r = self.pavexc(step, timeout=1800, home=pristine if "pristine" in step else None)
                 if r["rc"] != 0:
                     self.steps.append({"step": step + "_not_accepted", "stderr": r["stderr"][-600:]})
                     return
@@ -227,6 +233,9 @@ class Script:
             with open(os.path.join(d, "app", "Cargo.toml"), "w") as f:
                 f.write(e2e_env.APP_TOML)
             shutil.rmtree(ext, ignore_errors=True)
+            shutil.rmtree(pristine, ignore_errors=True)
+            # the generated manifest depends on `extdep`: leave a neutral SDK behind for whoever uses the slot next
+            self.reset_outputs()
 
     def reset_outputs(self):
         """Put the SDK back to an empty placeholder crate (cargo metadata needs the workspace member to exist) and drop the
